@@ -76,8 +76,14 @@ def _retargeted_only(detail):
     return bool(miss) and {m[0] for m in miss} <= {e[0] for e in extra} or (bool(miss) and not extra and False)
 
 
+UM_CELLS = {("athena", "kind:Merge"), ("databricks", "kind:Merge"), ("exasol", "kind:Merge"), ("exasol", "kind:Update"), ("sqlite", "kind:Update"),
+            ("trino", "kind:Merge"), ("tsql", "kind:Merge"), ("tsql", "kind:Update")}
+
+
 def classify(case, detail):
     feats = set(case.get("features") or [])
+    if any((case.get("dialect"), k) in UM_CELLS for k in feats) and detail.get("what") == "column pairs differ" and detail.get("missing") and not detail.get("extra"):
+        return "K-dialect-update-merge-columns@C02"
     d = case.get("dialect")
     what = detail.get("what", "")
     if "setop_first_branch_sourceless_item" in feats and what == "column pairs differ":
@@ -339,6 +345,50 @@ def skeletons():
         yield stmt, ["item:" + iname, "scope:" + sname, f"nest={nest}", f"setop_arity={arity}", "collist:" + collist]
 
 
+def update_merge_statements():
+    """UPDATE .. SET .. FROM and MERGE column lineage: FROM / USING shape x assignment set x target alias"""
+    C, T, D, S, G, J, I = ir.Col, ir.T, ir.Derived, ir.Select, ir.FromGroup, ir.Join, ir.Item
+    on = lambda a, b: ("on", ir.Cmp(C(a, "k"), "=", C(b, "k")))  # noqa: E731
+    der = D(S((I(C("s1.tu", "c1")), I(C("s1.tu", "c2"), "c9", True), I(C("s1.tu", "k"))), (G(T("s1", "tu")),)), "d", True)
+    derj = D(S((I(C("x", "c1")), I(C("y", "c2")), I(C("x", "k"))), (G(T(None, "ta", "x", True), (J("JOIN", T("s1", "tb", "y", True), on("x", "y")),)),)), "d", True)
+    out = []
+    froms = [("single", (G(T(None, "ta")),), "ta", "ta"), ("aliased", (G(T("s1", "ta", "a", True)),), "a", "a"), ("comma2", (G(T(None, "ta")), G(T(None, "tb", "b", False))), "ta", "b"),
+             ("join", (G(T(None, "ta", "a", True), (J("JOIN", T("s2", "tb"), on("a", "s2.tb")),)),), "a", "s2.tb"), ("derived", (G(der),), "d", "d"),
+             ("derived_join", (G(derj, (J("LEFT JOIN", T(None, "tc"), on("d", "tc")),)),), "d", "tc")]
+    for fname, frm, q1, q2 in froms:
+        for nset in (1, 2):
+            for talias in (None, "t"):
+                tgt = T("s9", "tgt", talias, True)
+                sets = (("c1", C(q1, "c1")),) + ((("c2", C(q2, "c2")),) if nset == 2 else ())
+                where = ir.Cmp(C(q1, "k"), "=", C(talias or "s9.tgt", "k"))
+                out.append((ir.Update(tgt, sets, frm, where), ["kind:Update", "update_from:" + fname, f"sets={nset}", "target_alias" if talias else "target_plain"]))
+    srcs = [("table", T(None, "ta"), "ta"), ("aliased", T("s1", "ta", "s", True), "s"), ("derived", der, "d"), ("derived_join", derj, "d")]
+    for sname, src, q in srcs:
+        for talias in (None, "t"):
+            tgt = T("s9", "tgt", talias, True)
+            tn = talias or "s9.tgt"
+            for mode in ("upd", "ins", "both"):
+                upd = (("c1", C(q, "c1")),) if mode in ("upd", "both") else ()
+                ins = (("k", C(q, "k")), ("c2", C(q, "c2"))) if mode in ("ins", "both") else ()
+                out.append((ir.Merge(tgt, src, ir.Cmp(C(tn, "k"), "=", C(q, "k")), upd, ins), ["kind:Merge", "merge_source:" + sname, "merge:" + mode, "target_alias" if talias else "target_plain"]))
+    return out
+
+
+def _update_merge_worker(payload):
+    shard, nshards, ctx = payload
+    res = runner.Res()
+    dl = C01.all_dialects()
+    for idx, (stmt, feats) in enumerate(update_merge_statements()):
+        if idx % nshards != shard:
+            continue
+        pick = ["ansi"] + ([dl[(idx + ctx.seed + j * 5) % len(dl)] for j in range(3)] if ctx.quick else dl)
+        for dialect in dict.fromkeys(pick):
+            v = judge(stmt, feats, dialect, res, ctx, "update_merge")
+            if v is not None and len(res.violations) < 4:
+                res.violation(v["kind"], v["case"], v["detail"])
+    return res
+
+
 def _skeleton_worker(payload):
     shard, nshards, ctx = payload
     res = runner.Res()
@@ -368,6 +418,7 @@ def replay(case):
 def run(ctx):
     nshards = runner.NCPU * 2
     res = runner.merge_all(runner.pmap(_skeleton_worker, [(i, nshards, ctx) for i in range(nshards)]))
+    res.merge(runner.merge_all(runner.pmap(_update_merge_worker, [(i, nshards, ctx) for i in range(nshards)])))
     res.extra["skeletons"] = sum(1 for _ in skeletons())
     n = ctx.n(1440, 40000)
     payloads = [(i, n // runner.NCPU, 2, ctx) for i in range(runner.NCPU)]
